@@ -26,6 +26,9 @@ var Components = []string{
 	"accept", "err", "msgs",
 	"render", "js:es5", "js:es6",
 	"render+cat", "js:es5+cat", "js:es6+cat",
+	// "reuse" is empty unless re-rendering / re-generating on the SAME compiled registry
+	// gave another result than the first time (it then names the component and the difference)
+	"reuse",
 }
 
 // Obs is everything the public API shows about one Compile + Render + GenJS of
@@ -299,6 +302,33 @@ func Observe(c *Case, order []int, cat *catalogue) Obs {
 	o["js:es6"] = gen(soyjs.ES6Formatter{}, false)
 	o["js:es5+cat"] = gen(soyjs.ES5Formatter{}, true)
 	o["js:es6+cat"] = gen(soyjs.ES6Formatter{}, true)
+
+	// Second pass over the SAME registry, in another sequence (render after generation, ES6
+	// before ES5, a file generated twice in a row, files last to first, messages re-read):
+	// generation and rendering must not change what a later generation/rendering gives.
+	o["reuse"] = ""
+	again := func(comp, now string) {
+		if o["reuse"] == "" && now != o[comp] {
+			o["reuse"] = comp + " changed on the same compiled registry: " + diffHint(o[comp], now)
+			o["reuse:a"], o["reuse:b"] = o[comp], now
+		}
+	}
+	again("render", render(false))
+	again("js:es6", gen(soyjs.ES6Formatter{}, false))
+	for _, sf := range files { // each file twice in a row, last file first
+		_ = genOne(sf, soyjs.ES5Formatter{}, false, cat)
+	}
+	for i := len(files) - 1; i >= 0; i-- {
+		_ = genOne(files[i], soyjs.ES6Formatter{}, true, cat)
+		_ = genOne(files[i], soyjs.ES6Formatter{}, true, cat)
+	}
+	again("js:es5", gen(soyjs.ES5Formatter{}, false))
+	again("render+cat", render(true))
+	again("js:es5+cat", gen(soyjs.ES5Formatter{}, true))
+	again("js:es6+cat", gen(soyjs.ES6Formatter{}, true))
+	msgs2, _ := describeMsgs(reg)
+	again("msgs", msgs2)
+	again("render", render(false))
 	return o
 }
 
@@ -361,6 +391,9 @@ func Classify(comp string, c *Case, a, b string) core.Sig {
 			return core.Sig{Family: "msg", Feature: "placeholder-names-vary,colliding-base-names"}
 		}
 		return core.Sig{Family: "msg", Feature: "placeholder-names-vary"}
+	case "reuse":
+		comp := strings.SplitN(a+b, " ", 2)[0]
+		return core.Sig{Family: "reuse", Feature: strings.TrimSuffix(comp, "+cat") + "-changes-on-the-same-compiled-registry"}
 	case "render", "render+cat":
 		return core.Sig{Family: "render", Feature: "rendered-bytes-vary," + lineKind(a, b)}
 	}
